@@ -10,7 +10,7 @@ rm -rf "$ROOT/sim/build-seeded/src-snapshot"; cp -r "$ROOT/sim/src" "$ROOT/sim/b
 export MOMSIM_SRC="$ROOT/sim/build-seeded/src-snapshot"
 for d in seeded/*/; do
   n=$(basename "$d"); [ -f "$d/patch.diff" ] || continue
-  case "$n" in silent_*|b05|b16|b17|b18|p05|p16|p17|p18) silent=1;; *) silent=0;; esac
+  case "$n" in silent_*|b05|b16|b17|b18|p05|p16|p17|p18|q16|q17|q18) silent=1;; *) silent=0;; esac
   if [ "$silent" = 1 ]; then
     for p in C05 C16 C17 C18; do tools/seeded.sh "$d" quick $p | sed 's/^MISSED/SILENT (as required)/; s/^CAUGHT/FALSE-ALARM/'; done
     continue
